@@ -81,9 +81,6 @@ def main():
     args = ap.parse_args()
     todo = [m for m in MUTANTS if not args.only or args.only in m["name"]]
     results = []
-    # evidence files are rewritten by every check run: keep the real ones
-    backup = tempfile.mkdtemp(prefix="verif-evid-", dir="/tmp")
-    shutil.copytree(os.path.join(V, "evidence"), os.path.join(backup, "evidence"))
     try:
         with concurrent.futures.ThreadPoolExecutor(max_workers=args.jobs) as ex:
             for r in ex.map(lambda m: run_mutant(m, args.tier, args.tests, args.write_patches), todo):
@@ -92,9 +89,7 @@ def main():
                 print("%-8s %-40s caught by %s missed by %s %s" % (status, r["name"], r["caught_by"], r["missed_by"], "; ".join(map(str, r["notes"]))))
                 sys.stdout.flush()
     finally:
-        shutil.rmtree(os.path.join(V, "evidence"))
-        shutil.copytree(os.path.join(backup, "evidence"), os.path.join(V, "evidence"))
-        shutil.rmtree(backup, ignore_errors=True)
+        pass
     # alt modfiles / binaries built for the scratch trees
     for f in os.listdir(os.path.join(V, ".build")):
         if f.startswith("alt-") or "-alt" in f:
